@@ -6,6 +6,7 @@ import collections
 import copy
 import dataclasses
 import functools
+import io
 import itertools
 import re
 import textwrap
@@ -484,8 +485,8 @@ def _iter_wildcards(
     if isinstance(template, Wildcard):
         yield template
         return
-    if isinstance(template, type):
-        return
+    if isinstance(template, (type, str, bytes)):
+        return  # Iterating over a string of one character gives that string again, forever
     if isinstance(template, Iterable):
         for item in template:
             yield from _iter_wildcards(item, recursion_blacklist=recursion_blacklist)
@@ -770,13 +771,32 @@ def has_side_effect(node: ast.AST, safe_callable_whitelist: Collection[str] = fr
 
 
 @functools.lru_cache(maxsize=100)
+def _get_lines(source: str) -> Sequence[str]:
+    """Split source code into lines, like the python parser does.
+
+    The parser ends lines at \\n, \\r\\n and \\r, but unlike str.splitlines() not at form feeds
+    or unicode line separators, which may be found in string literals and comments.
+    """
+    return tuple(io.StringIO(source, newline="").readlines())
+
+
+@functools.lru_cache(maxsize=100)
 def _get_line_start_charnos(source: str) -> Sequence[int]:
     start = 0
     charnos = []
-    for line in source.splitlines(keepends=True):
+    for line in _get_lines(source):
         charnos.append(start)
         start += len(line)
     return tuple(charnos)
+
+
+def _get_charno(source: str, lineno: int, col_offset: int) -> int:
+    """Get the character number of a position. The col_offset of an ast node is in utf8 bytes."""
+    line = _get_lines(source)[lineno - 1]
+    if not line.isascii():
+        col_offset = len(line.encode("utf-8")[:col_offset].decode("utf-8", errors="ignore"))
+
+    return _get_line_start_charnos(source)[lineno - 1] + col_offset
 
 
 class Range(NamedTuple):
@@ -873,11 +893,11 @@ def get_charnos(node: ast.AST, source: str, keep_first_indent: bool = False) -> 
         # A position after the last line, i.e. for code that should be appended to the source
         return Range(len(source), len(source))
 
-    start_charno = line_start_charnos[start_position.lineno - 1] + start_position.col_offset
+    start_charno = _get_charno(source, start_position.lineno, start_position.col_offset)
     if getattr(node, "end_lineno", None) is None:
         return Range(start_charno, start_charno)
 
-    end_charno = line_start_charnos[node_position.end_lineno - 1] + node_position.end_col_offset
+    end_charno = _get_charno(source, node_position.end_lineno, node_position.end_col_offset)
 
     code = source[start_charno:end_charno]
     if code and code[0] == " ":
